@@ -69,15 +69,16 @@ type zvsBundle struct {
 
 // zvsInfo carries the concrete values behind the abstract descriptors (not read by TLC; used by --replay).
 type zvsInfo struct {
-	Via     string   `json:"via"`     // direct | directnil | newsigner | gensignconf | tls
-	Replies []string `json:"replies"` // hex of the key material each endpoint answers with
-	Codes   []int    `json:"codes"`   // status code of "rpc" endpoints
-	TryMs   int      `json:"tryms"`
-	Big     bool     `json:"big,omitempty"`     // replies too large to record: they are re-created from the templates on replay
-	Discard string   `json:"discard,omitempty"` // set when the run of this case says nothing (machine too slow for its timing)
-	WallMs  int      `json:"wallms"`
-	Loaded0 []string `json:"loaded0"` // CA names TLS configurations of this process had read when the case started
-	Note    string   `json:"note,omitempty"`
+	Via        string   `json:"via"`     // direct | directnil | newsigner | gensignconf | tls
+	Replies    []string `json:"replies"` // hex of the key material each endpoint answers with
+	Codes      []int    `json:"codes"`   // status code of "rpc" endpoints
+	TryMs      int      `json:"tryms"`
+	Big        bool     `json:"big,omitempty"`     // replies too large to record: they are re-created from the templates on replay
+	Discard    string   `json:"discard,omitempty"` // set when the run of this case says nothing (machine too slow for its timing)
+	WallMs     int      `json:"wallms"`
+	Reconnects int      `json:"reconnects,omitempty"` // request-less connection attempts to endpoints already contacted (not contacts)
+	Loaded0    []string `json:"loaded0"`              // CA names TLS configurations of this process had read when the case started
+	Note       string   `json:"note,omitempty"`
 }
 
 type zvsCase struct {
@@ -1201,6 +1202,18 @@ func (l *zvsLane) run(c *zvsCase, base *zvsBase, r *mrand.Rand, tryMs int) []int
 					p.hs, p.ver, p.cc = h.hs, h.ver, h.cc
 				}
 				continue
+			}
+			if !h.rpc {
+				// a connection attempt that carries no request, to an endpoint this call has already contacted, is the
+				// transport reconnecting on its own (a kept channel does that after its backoff), not the call asking again
+				again := false
+				for _, p := range merged {
+					again = again || p.pos == h.pos
+				}
+				if again {
+					c.Info.Reconnects++
+					continue
+				}
 			}
 			x := *h
 			merged = append(merged, &x)
